@@ -6,6 +6,56 @@ import os
 HERE = os.path.dirname(os.path.dirname(os.path.abspath(__file__)))
 
 CHECKS = {
+    'C01': dict(
+        text='The real get_stabilizer of every class (through the wrappers StabilizerCode.deform installs and the real '
+             'get_deformation / qubit_axis / is_qubit / stabilizer_type) is run on SYMBOLIC stabilizer locations; z3 '
+             'decides, for every pair of locations and every (location, logical) pair at once, that the overlap of '
+             'anticommuting letters is even, per configuration (class x size x deformation name x axis). Rank n-k and '
+             'independence of the logicals are decided through the real in_codespace on a symbolic error (every '
+             'zero-syndrome error lies in span(H, L)) plus certified GF(2) ranks; the k x k logical table is ground. '
+             'Bounded model checking is the right level: the quantifier is over locations/errors of finitely many '
+             'enumerated lattices, not over all L.',
+        note='Trusted: z3, symx proxies, SymDict/SymList shadows of the index tables (membership of a symbolic '
+             'coordinate as a formula), canonicalisation of operator dicts, certified GF(2) elimination. Classes whose '
+             'get_stabilizer looks coordinates up in literal dicts (Color3D, Color666Toric deformation) are realised '
+             '(solver-enumerated) at those sites. Supported family per DESIGN.md section 2.',
+        technique='symbolic execution of real Python with symbolic lattice coordinates (symx) + z3 LIA', ref='3/C01'),
+    'C02': dict(
+        text='Row i of the assembled H equals the BSF image of get_stabilizer(coordinate i) for SYMBOLIC stabilizer and '
+             'qubit locations (z3), supports lie inside the qubit set and are non-empty; to_bsf/from_bsf are inverse on '
+             'all 4^n operators of small codes; X-(Z-)syndrome depends only on the Z-(X-)half for two symbolic errors; '
+             'the assembly of a user-defined StabilizerCode with symbolic supports/letters produces exactly the BSF '
+             'image; index tables are invariant under every modelled iteration order of str-keyed sets (hash seed).',
+        note='Trusted: as C01; hash randomisation modelled as 3 solver-chosen iteration orders of sets containing '
+             'str/bytes (ints and int tuples hash deterministically in CPython); replay runs real interpreters with 6 '
+             'hash seeds. User-defined codes on a fixed scaffold, <= 2x2 (quick) incidences.',
+        technique='symbolic execution of real Python with symbolic coordinates/supports (symx) + z3', ref='3/C02'),
+    'C07': dict(
+        text='probability_distribution with symbolic (p, r) is shown cell-wise equal to (1-p, p r_sigma) permuted by the '
+             'real get_deformation, non-negative, summing to 1 (polynomial identities, z3 NRA); fast_choice / generate / '
+             'get_weights / BP-OSD prior assembly and conditional update run on ARBITRARY per-qubit distributions with '
+             'symbolic uniform variates: letter <=> variate in its consecutive interval, qubit i uses variate i, exactly '
+             'n draws from the supplied rng, p=0/p=1 end points, weights are LLRs of the flip marginals, ldpc receives '
+             'the marginals in column order ([z|x] for non-CSS).',
+        note='Floats are reals (the rounding-only fallback of fast_choice is outside); rng draws are fresh symbolic '
+             'reals in [0,1); ln uninterpreted; ldpc stubbed (records pushes).',
+        technique='symbolic execution of real Python with symbolic reals (symx) + z3 LRA/NRA; contract stubs', ref='3/C07'),
+    'C08': dict(
+        text='get_deformation on a SYMBOLIC qubit location returns a bijective involution of {X,Y,Z} matching the named '
+             'deformation (XZZX: X<->Z exactly where qubit_axis == axis; XY: Y<->Z everywhere); for all 4^n errors the '
+             'deformed object\'s measure_syndrome/logical_errors on D(e) equal the undeformed ones on e; the deformed '
+             'noise model\'s cells equal the relabelled ones for symbolic (p, r); apply_deformation is the Hadamard swap '
+             'for symbolic vector and mask; deform() is history independent over all enumerated operation sequences.',
+        note='D_i taken from the real get_deformation at each concrete qubit; reals for probabilities; histories of '
+             'length 1 (quick) / <= 2 (thorough).',
+        technique='symbolic execution of real Python (symx) + z3; XOR normal form equality', ref='3/C08'),
+    'C18': dict(
+        text='The real error_probability (product and log form) runs on a fully symbolic error with arbitrary per-qubit '
+             'distributions; z3 (LRA) shows every factor is the channel probability of the letter on that qubit, that '
+             'the result is the single reduction over exactly those n factors, and that the four letters sum to one.',
+        note='probability_distribution is a stub (arbitrary distributions); np.prod/np.sum/np.log observed at the numpy '
+             'proxy; floats are reals.',
+        technique='symbolic execution of real Python (symx) + z3 LRA; observation-point decomposition', ref='3/C18'),
     'C03': dict(
         text='Bounded symbolic execution of the real bs_prod (all 9 representation pairs x 1-D/2-D stack shapes), '
              'converters, bsf_wt, brank and measure_syndrome with every input bit symbolic; z3 decides each '
